@@ -1,5 +1,7 @@
 import Alpen.Model.Import
 import Alpen.Lemmas.Import
+import Alpen.Model.FileWalk
+import Alpen.Lemmas.FileWalk
 /-!
 # C04 — import registers exactly what is on disk, once
 
@@ -143,5 +145,67 @@ theorem C04_race_final (n : Nat) (c0 : Option (Has × Wants)) (sched : List Nat)
 example : importStep ⟨true, false, false, true, false, false, .ok, true, false, false, none⟩
     = ⟨.success, true, true, true, some (.Y, .Y), true⟩ := by decide
 example : (irun (IState.init none) [0, 1, 0, 1, 0, 1, 1, 0]).copy = some (.M, .Y) := by decide
+
+
+/-! ## The recursive scan (`DefaultNodeIO.file_walk`) behind recursive import requests -/
+
+/-- **C04.5 (scan is exact)** for every directory tree (any depth, any fan-out, symlinked directories included) the
+    walk yields a path if and only if it names a regular, non-symlink file reached by descending through directory
+    entries only: symlinks to files, fifos, sockets and dangling links are never handed to the importer, and no
+    regular file below the walked directory is left out -/
+theorem C04_walk_exact (pfx : List String) (t : FsNode) (p : List String) :
+    p ∈ walkNode pfx t ↔ Reach pfx t p :=
+  ⟨walkNode_reach pfx t p, reach_walkNode⟩
+
+/-- **C04.5 (scan yields each file once)** the number of paths yielded equals the number of regular files in the tree:
+    together with `C04_walk_exact` no file is yielded twice unless the directory listing itself repeats an entry -/
+theorem C04_walk_once (pfx : List String) (t : FsNode) :
+    (walkNode pfx t).length = leavesNode t := walkNode_length pfx t
+
+/-- **C04.5 / C06 (scan stays below the walked path)** every yielded path extends the walked path component-wise -/
+theorem C04_walk_confined (pfx : List String) (t : FsNode) (p : List String) (h : p ∈ walkNode pfx t) : pfx <+: p :=
+  reach_prefix (walkNode_reach pfx t p h)
+
+/-- **C04.5 (top-level dispatch of `file_walk`)** an absolute argument is refused; a missing path, a symlink to a
+    file and a special file give nothing; a regular file gives itself; a directory (or link to one) gives the walk -/
+theorem C04_fileWalk_top (pfx : List String) (top : WalkTop) :
+    (fileWalk pfx top = none ↔ top = .absolute) ∧
+    (∀ ps, fileWalk pfx top = some ps → ∀ p, p ∈ ps ↔ ∃ t, top = .at t ∧ Reach pfx t p) := by
+  refine ⟨?_, ?_⟩
+  · cases top with
+    | absolute => simp [fileWalk]
+    | missing => simp [fileWalk]
+    | «at» t => cases t <;> simp [fileWalk]
+  · intro ps h p
+    cases top with
+    | absolute => simp [fileWalk] at h
+    | missing => simp [fileWalk] at h; subst h; simp
+    | «at» t =>
+      cases t with
+      | file =>
+        simp [fileWalk] at h; subst h
+        constructor
+        · intro hp; simp at hp; subst hp; exact ⟨.file, rfl, .file _⟩
+        · rintro ⟨t, ht, hr⟩; cases ht; exact (C04_walk_exact pfx .file p).mpr hr
+      | symFile =>
+        simp [fileWalk] at h; subst h
+        constructor
+        · intro hp; simp at hp
+        · rintro ⟨t, ht, hr⟩; cases ht; cases hr
+      | other =>
+        simp [fileWalk] at h; subst h
+        constructor
+        · intro hp; simp at hp
+        · rintro ⟨t, ht, hr⟩; cases ht; cases hr
+      | dir s cs =>
+        simp [fileWalk] at h; subst h
+        constructor
+        · intro hp; exact ⟨.dir s cs, rfl, (C04_walk_exact pfx _ p).mp hp⟩
+        · rintro ⟨t, ht, hr⟩; cases ht; exact (C04_walk_exact pfx _ p).mpr hr
+
+-- non-vacuity: a tree with a nested file, a symlink to a file, a fifo and a symlinked directory
+example : walkNode ["r"] (.dir false [("a", .file), ("l", .symFile), ("o", .other),
+      ("d", .dir false [("b", .file)]), ("ld", .dir true [("c", .file), ("s", .symFile)])])
+    = [["r", "a"], ["r", "d", "b"], ["r", "ld", "c"]] := by decide
 
 end Alpen
